@@ -339,6 +339,7 @@ def check(prog: Program, tier: str) -> Result:
                           f"expected volumes -> equivalent tube -> grout match, returning the matched tube")
     _check_recompute(prog, res)
     _check_brackets(prog, res)
+    _check_tolerances(prog, res)
     return res
 
 
@@ -396,6 +397,39 @@ def _check_brackets(prog: Program, res: Result):
     res.ob("R15.5", f"grout-conductivity search: bracket [{fl}, {fh}] W/m-K contains [0.01, 7.0]", ok, prog.loc(mfi, calls[0]))
     if not ok:
         res.violation("R15.5", f"bracket-kg|{fl}|{fh}", prog.loc(mfi, calls[0]), mq, f"the grout-conductivity root search runs on [{fl}, {fh}] W/m-K instead of at least [0.01, 7.0]: matched conductivities outside it are silently replaced by a bound")
+
+
+def _check_tolerances(prog: Program, res: Result):
+    """R15.5 (table rule, continued): the two conductivity searches stop within the accuracy the property asks for.  Recorded
+    domain fact: matched pipe conductivities go down to ~0.02 W/m-K (laminar flow, viscous antifreeze); 0.1 % of that is
+    2e-5 W/m-K, so the absolute tolerance in force at the call (explicit, or solve_root's default) must not exceed 2e-5 and the
+    relative one 1e-3.  (GHE.size passes its own tolerances; these two calls rely on the defaults.)"""
+    sr = prog.func("ghedesigner.utilities.solve_root")
+    dflt = sr.defaults()
+    n = 0
+    for mname in ("equivalent_single_u_tube", "match_effective_borehole_resistance"):
+        fi = prog.func(f"{BH}.GHEDesignerBoreholeWithMultiplePipes.{mname}")
+        for c in [c for c in ast.walk(fi.node) if isinstance(c, ast.Call) and attr_chain(c.func) == "solve_root"]:
+            b = bind_args(sr, c)
+            vals = {}
+            for k_ in ("abs_tol", "rel_tol"):
+                e_ = b.get(k_, dflt.get(k_))
+                try:
+                    vals[k_] = float(ast.literal_eval(e_)) if e_ is not None else None
+                except Exception:
+                    vals[k_] = None
+            if vals["abs_tol"] is None or vals["rel_tol"] is None:
+                raise AnalysisError(f"{fi.qualname}: tolerances of the conductivity search are not literals")
+            n += 1
+            ok = 0 < vals["abs_tol"] <= 2e-5 and 0 < vals["rel_tol"] <= 1e-3
+            src = "explicit" if ("abs_tol" in b or "rel_tol" in b) else "solve_root's defaults"
+            res.ob("R15.5", f"{mname}: the conductivity search stops within abs {vals['abs_tol']:g} W/m-K / rel {vals['rel_tol']:g} ({src}) - at most 2e-5 / 1e-3", ok, prog.loc(fi, c))
+            if not ok:
+                res.violation("R15.5", f"tolerance|{mname}|{vals['abs_tol']:g}|{vals['rel_tol']:g}", prog.loc(fi, c), fi.qualname,
+                              f"the conductivity search of {mname} stops within abs {vals['abs_tol']:g} W/m-K / rel {vals['rel_tol']:g} ({src}): for matched conductivities near 0.02 W/m-K (laminar flow) "
+                              "that is several per cent, so the equivalent tube no longer reproduces R_conv + R_pipe")
+    res.count("conductivity_searches", n)
+    res.floor("conductivity_searches", 2)
 
 
 def _pyg_writers_of(attr: str):
@@ -504,6 +538,10 @@ def _check_recompute(prog: Program, res: Result):
 
 
 VARIANTS = [
+    Variant("solve_root's default absolute tolerance loosened to 1e-3 (seeded C15_e)", "break",
+            [("ghedesigner.utilities", "def solve_root(x, objective_function, lower=None, upper=None, abs_tol=1.0e-6,", "def solve_root(x, objective_function, lower=None, upper=None, abs_tol=1.0e-3,")], "R15.5"),
+    Variant("solve_root's default absolute tolerance tightened to 1e-8", "benign",
+            [("ghedesigner.utilities", "def solve_root(x, objective_function, lower=None, upper=None, abs_tol=1.0e-6,", "def solve_root(x, objective_function, lower=None, upper=None, abs_tol=1.0e-8,")]),
     Variant("u_tube_volumes recomputes the film coefficient at borehole flow / nPipes (seeded C15_c)", "break",
             [(BH, "        resist_conv = 1 / (self.h_f * area_surf_inner)  # Convection resistance (m.K/W)",
               "        h_f = gt.pipes.convective_heat_transfer_coefficient_circular_pipe(self.m_flow_borehole / self.nPipes, self.r_in, self.fluid.mu, self.fluid.rho, self.fluid.k, self.fluid.cp, self.pipe.roughness)\n        resist_conv = 1 / (h_f * area_surf_inner)  # Convection resistance (m.K/W)")], "R15.3"),
